@@ -20,6 +20,14 @@ def run(ctx):
     seen = {}
     for (ln, payload) in rejects:
         e = json.loads(lines[ln - 1])
+        if e['ev'] == 'CLIBundle':
+            for why in payload[0]:
+                if why.startswith('fid-'):
+                    ctx.drift.append('PEM bundle (%s, %s second): %s' % (e['how'], e['second'], why))
+                else:
+                    vlib.report(ctx, 'bundle:%s:%s' % (why, e['how']), 'zlint CLI on a PEM input of two blocks (%s, certificate then %s; %s): %s; exit=%s printed=%s stderr=%r' % (
+                        e['how'], e['second'], e['objects'], why, e['exitObs'], e['printedObs'], e['stderr']), dict(event=e))
+            continue
         sc = e['scn']
         for why in payload[0]:
             if why.startswith('fid-'):
